@@ -244,6 +244,8 @@ type mergeBounds struct {
 	modes     []uint32 // chunk modes
 	depth2    bool
 	d2Modes   []uint32 // chunk modes for which depth 2 is explored (nil = all)
+	d2Sources []int    // depth-2 sources: single-input merges of every item + pairs over this subset (nil = all pairs)
+	lean      bool     // quick tier: one provenance pattern for triples, reduced drop alphabet for the menu item at depth 2
 	d2Menu    []int    // menu items combined with depth-1 results at depth 2
 	depth3    bool
 	fullDrops bool
@@ -299,6 +301,9 @@ func genMerges(menuName string, b mergeBounds, emit func(enum.MergeCase)) {
 				if l >= 2 {
 					pats = append(pats, alt)
 				}
+				if b.lean && l >= 3 {
+					pats = pats[2:]
+				}
 				forDropsOf(cs, true, func(drops [][]int, ok []bool) {
 					for pi, pat := range pats {
 						e := enum.Expr{Drops: drops, DropOK: ok}
@@ -306,7 +311,7 @@ func genMerges(menuName string, b mergeBounds, emit func(enum.MergeCase)) {
 							e.In = append(e.In, enum.L(x, pat[i]))
 						}
 						emit(enum.MergeCase{Menu: menuName, Mode: mode, E: e})
-						if pi == 0 && l <= 2 && b.depth2 {
+						if pi == 0 && l <= 2 && b.depth2 && (l == 1 || b.d2Sources == nil || allIn(list, b.d2Sources)) {
 							r := mx.RefOf(menu, e)
 							k := stateKey(r, oneHitClasses(r), mode, true)
 							if !seen[k] {
@@ -336,6 +341,16 @@ func genMerges(menuName string, b mergeBounds, emit func(enum.MergeCase)) {
 		for _, s := range level1 {
 			try := func(ins []enum.Expr, cs []int) {
 				forDropsOf(cs, b.fullDrops, func(drops [][]int, ok []bool) {
+					if b.lean && len(ins) == 2 {
+						// reduced alphabet for the menu item: nil, first document, everything
+						mi := 1
+						if ins[0].Leaf != 0 {
+							mi = 0
+						}
+						if n := len(drops[mi]); ok[mi] && !(n == cs[mi] || (n == 1 && drops[mi][0] == 0)) {
+							return
+						}
+					}
 					e := enum.Expr{In: ins, Drops: drops, DropOK: ok}
 					emit(enum.MergeCase{Menu: menuName, Mode: mode, E: e})
 					if b.depth3 && len(ins) == 1 {
@@ -371,18 +386,31 @@ func genMerges(menuName string, b mergeBounds, emit func(enum.MergeCase)) {
 	}
 }
 
+func allIn(list, set []int) bool {
+	for _, x := range list {
+		in := false
+		for _, y := range set {
+			in = in || x == y
+		}
+		if !in {
+			return false
+		}
+	}
+	return true
+}
+
 func forDropsOf(counts []int, full bool, f func(drops [][]int, ok []bool)) {
 	enum.ForDrops(counts, full, f)
 }
 
 func textBounds(tier string) mergeBounds {
 	if tier == "quick" {
-		return mergeBounds{maxLen1: 3, triples: []int{1, 3, 7}, modes: []uint32{1, 1026}, depth2: true, d2Modes: []uint32{1}, d2Menu: []int{7}, fullDrops: false}
+		return mergeBounds{maxLen1: 3, triples: []int{1, 3, 9}, modes: []uint32{1, 1026}, depth2: true, d2Modes: []uint32{1}, d2Sources: []int{1, 3, 9}, d2Menu: []int{9}, fullDrops: false, lean: true}
 	}
-	return mergeBounds{maxLen1: 3, triples: nil, modes: []uint32{1, 2, 1024, 1026}, depth2: true, d2Menu: []int{0, 1, 2, 3, 4, 5, 6, 7}, depth3: true, fullDrops: false}
+	return mergeBounds{maxLen1: 3, triples: nil, modes: []uint32{1, 2, 1024, 1026}, depth2: true, d2Menu: []int{0, 1, 2, 3, 4, 5, 6, 7, 8, 9}, depth3: true, fullDrops: false}
 }
 
-var mergeRule = "explicit-state exploration of the merge state space on the real code: states = segments reachable from an 8-item segment menu (frequencies / lengths / location values at varint boundaries; empty batch; single doc with a single-hit-eligible term; two 2-doc batches with identical field lists (byte-copy paths); overlapping field list with a composite field whose locations name other fields; disjoint field list with long array positions and the empty term; 3-doc batch with a field-less document and an id shared with another item), each input built in memory or persisted+re-opened; transitions = Merge(ordered list of <=3 states, one drop bitmap per input) for EVERY drop vector over {nil, empty, every subset} at depth 1, and {nil, empty, singletons, complements, all} for inputs with >3 documents at depth >= 2; chunk modes as bounded. Depth-1 results are deduplicated by canonical state key (semantic dump + per-term single-hit encoding class + chunk mode) computed from the reference model and cross-checked against the key observed on the implementation; each distinct state is merged again (alone, with menu items on either side) at depth 2 (and once more at depth 3 in thorough). A successor is computed by replaying the whole expression on fresh objects. Plus a 'big' family: merges of 600..1030-document segments (and a one-document segment lacking the term) whose surviving cardinality of a term crosses 1024 - the boundary of the cardinality-dependent chunk-size rules - through inputs and drops, in both input orders, in memory and re-opened, chunk modes 1024/1025/1026, incl. a second merge of a result sitting at the boundary. Non-trivial = merge with >= 1 survivor."
+var mergeRule = "explicit-state exploration of the merge state space on the real code: states = segments reachable from a 10-item segment menu (frequencies / lengths / location values at varint boundaries; a gap between stored fields and seven array-positioned stored values in one document; a frequency-0 term with locations in two documents and a doc-value field without tokens; empty batch; single doc with a single-hit-eligible term; two 2-doc batches with identical field lists (byte-copy paths); overlapping field list with a composite field whose locations name other fields; disjoint field list with long array positions and the empty term; 3-doc batch with a field-less document and an id shared with another item), each input built in memory or persisted+re-opened; transitions = Merge(ordered list of <=3 states, one drop bitmap per input) for EVERY drop vector over {nil, empty, every subset} at depth 1, and {nil, empty, singletons, complements, all} for inputs with >3 documents at depth >= 2; chunk modes as bounded. Depth-1 results are deduplicated by canonical state key (semantic dump + per-term single-hit encoding class + chunk mode) computed from the reference model and cross-checked against the key observed on the implementation; each distinct state is merged again (alone, with menu items on either side) at depth 2 (and once more at depth 3 in thorough). A successor is computed by replaying the whole expression on fresh objects. Plus a 'big' family: merges of 600..1030-document segments (a one-document segment lacking the term; two 700-document segments whose every document has the empty term) whose surviving cardinality of a term crosses 1024 - the boundary of the cardinality-dependent chunk-size rules - through inputs and drops, in both input orders, in memory and re-opened, chunk modes 1024/1025/1026, incl. a second merge of a result sitting at the boundary. Non-trivial = merge with >= 1 survivor."
 
 func init() {
 	for _, which := range []string{"C05", "C06"} {
@@ -393,8 +421,8 @@ func init() {
 			Rule:        mergeRule,
 			Assumptions: append([]string{"deletion bitmaps only contain existing document numbers; output paths do not exist before Merge", "state-key deduplication merges states that differ only in the byte order of independent sections (Go map order), which no reader or merger consults"}, batchAssumptions...),
 			Bounds: map[string]string{
-				"quick":    "depth 1: all lists of length <=2 over 8 items + triples over {M1,M3,M7}, every drop vector, 3 provenance patterns, chunk modes {1,1026}; depth 2: every distinct depth-1 state (lists <=2) merged alone and with M7 on either side (chunk mode 1), reduced drop alphabet",
-				"thorough": "depth 1: all lists of length <=3 over 8 items, every drop vector, chunk modes {1,2,1024,1026}; depth 2 with all 8 items; depth 3 for distinct depth-2 single-input states",
+				"quick":    "depth 1: all lists of length <=2 over 10 items (3 provenance patterns) + triples over {M1,M3,M9} (alternating provenance), every drop vector, chunk modes {1,1026}; depth 2: every distinct state reached by a single-input merge or by a pair over {M1,M3,M9}, merged alone and with M9 on either side (chunk mode 1), reduced drop alphabet",
+				"thorough": "depth 1: all lists of length <=3 over 10 items, every drop vector, chunk modes {1,2,1024,1026}; depth 2 with all 10 items; depth 3 for distinct depth-2 single-input states",
 			},
 			New: func() interface{} { return &enum.MergeCase{} },
 			Gen: func(tier string, emit func(interface{})) {
@@ -474,6 +502,9 @@ func genBigMerges(tier string, emit func(enum.MergeCase)) {
 				es = append(es, mk([]enum.Expr{L(3), L(0)}, [][]int{first(k), {}}))
 				es = append(es, mk([]enum.Expr{L(0), L(3), L(0)}, [][]int{{0}, first(k), nil}))
 			}
+			// the empty term (first key of a dictionary) in segments whose merge has > 1024 documents
+			es = append(es, mk([]enum.Expr{L(4), L(5)}, [][]int{nil, nil}), mk([]enum.Expr{L(4), L(5)}, [][]int{first(3), {}}),
+				mk([]enum.Expr{L(0), L(4), L(5)}, [][]int{nil, nil, first(2)}), mk([]enum.Expr{L(4), L(1)}, [][]int{nil, first(7)}))
 			// a second merge of a result that sits exactly at the boundary
 			at := mk([]enum.Expr{L(0), L(1)}, [][]int{nil, first(6)})
 			es = append(es, mk([]enum.Expr{at}, [][]int{first(1)}), mk([]enum.Expr{at, L(0)}, [][]int{nil, nil}))
